@@ -1,5 +1,6 @@
 import Hive.Base.Proto
 import Hive.Model.ReactiveInst
+import Hive.Model.ReactiveVariantsSeq
 /-!
 # Sequential reading of the reactive model and the line protocol of `drv_c13`
 
@@ -28,6 +29,7 @@ structure St where
   subs : List Sub := []
   hist : List Nat := []     -- stress: the variable's value history given by a `vhist` line
   ref : Option (List Mut) := none   -- stress: the notes of the set's reference subscription (`sref` line)
+  vx : Option VX.St := none         -- a `newvarx` case: variable with subscribers of every variant
 
 def init : St := {}
 
@@ -141,7 +143,7 @@ def judgeSet (st : St) (isRef : Bool) (act fin : String) (evs : List String) : S
 
 /-! ### the driver step -/
 
-def stepLine (st : St) (toks : List String) : St × String :=
+def stepLine0 (st : St) (toks : List String) : St × String :=
   match toks with
   | "stress" :: _ => ({ st with hist := [], ref := none }, "ok")
   | "vhist" :: vs =>
@@ -229,5 +231,11 @@ def stepLine (st : St) (toks : List String) : St × String :=
     | .event, ["trigger"] => varAnswer st (evOr 1) (showBool (st.value == 0))
     | .event, ["ontrigger"] => subscribe st false
     | _, _ => (st, "bad-op")
+
+def stepLine (st : St) (toks : List String) : St × String :=
+  match toks, st.vx with
+  | ["newvarx"], _ => ({ vx := some {} }, "ok")
+  | _, some x => let r := VX.stepLine x toks; ({ st with vx := some r.1 }, r.2)
+  | _, none => stepLine0 st toks
 
 end Hive.Reactive.Seq
